@@ -87,7 +87,7 @@ class RpcWorld(World):
                    "a one-way call must have executed once at quiescence only if its request was delivered and the connection was not reset afterwards",
                    "recovery is demanded for the call after a failed call when no fault fires during it",
                    "before the first injected fault no call may fail with a communication error"]
-    QUICK_RUNS = 3000
+    QUICK_RUNS = 10000
     CHUNK = 100
     SHRINK_LISTS = ["calls", "faults"]
 
